@@ -12,7 +12,7 @@ for id in $IDS; do
   [ $rc -ne 0 ] && echo "$out" | grep -a "VIOLATION\|INCONCLUSIVE\|^--- " | head -5
 done
 EVDIR=$EVDIR python3-vt - <<'PY'
-import json,jsonschema,glob
+import json,jsonschema,glob,os
 s=json.load(open('/root/.vp/EVIDENCE.schema.json'))
 for f in sorted(glob.glob(os.environ.get('EVDIR','/verif/evidence')+'/*.json')):
     try:
